@@ -116,3 +116,47 @@ Definition uint_roundtrip (v : Z) : option (list Z * Z) :=
   | None => None
   | Some t => match fast_atoi T_uint 0 t with None => None | Some r => Some (t, r) end
   end.
+
+(* ------------------------------------------------- fast_atoi<int> with the C++ rules checked *)
+(* The same loop for T = int, but every int operation is checked in evaluation order
+     ((retval << 3) + (retval << 1)) + *str) - '0'
+   instead of being wrapped: this is what the build WITHOUT -fwrapv / with UBSan observes.
+   (A left shift of a non-negative value is flagged here as soon as the result leaves int; C++11
+   tolerates results up to 2^32-1 -- never reached on the canonical text of an int32.) *)
+Inductive atoi_checked :=
+  | AC_ok (v : Z)
+  | AC_shift_negative          (* left shift of a negative value *)
+  | AC_shift_overflow
+  | AC_overflow.               (* signed integer overflow in + or - *)
+
+Definition in_int (x : Z) : bool := (- W31 <=? x) && (x <? W31).
+
+Definition atoi_step_checked (retval c : Z) : atoi_checked :=
+  if retval <? 0 then AC_shift_negative
+  else
+    let a := Z.shiftl retval 3 in
+    let b := Z.shiftl retval 1 in
+    if negb (in_int a && in_int b) then AC_shift_overflow
+    else if negb (in_int (a + b)) then AC_overflow
+    else if negb (in_int (a + b + schar c)) then AC_overflow
+    else if negb (in_int (a + b + schar c - 48)) then AC_overflow
+    else AC_ok (a + b + schar c - 48).
+
+Fixpoint fast_atoi_checked_from (str : list Z) (retval : Z) : atoi_checked :=
+  match str with
+  | [] => AC_ok retval
+  | c :: rest => if c =? 0 then AC_ok retval
+                 else match atoi_step_checked retval c with
+                      | AC_ok r => fast_atoi_checked_from rest r
+                      | e => e
+                      end
+  end.
+
+Definition fast_atoi_checked (str : list Z) : atoi_checked := fast_atoi_checked_from str 0.
+
+(* itoa<int> then fast_atoi<int> under the checked rules *)
+Definition int_roundtrip_checked (v : Z) : option (list Z * atoi_checked) :=
+  match itoa_int v 10 with
+  | None => None
+  | Some t => Some (t, fast_atoi_checked t)
+  end.
